@@ -25,5 +25,9 @@ pub fn no_panic<T>(f: impl FnOnce() -> T) -> Result<T, String> {
 }
 
 pub fn quiet_panics() {
-    std::panic::set_hook(Box::new(|_| {}));
+    std::panic::set_hook(Box::new(|info| {
+        if std::env::var_os("VERIF_SHOW_PANICS").is_some() {
+            eprintln!("panic: {info}");
+        }
+    }));
 }
